@@ -572,3 +572,17 @@ End Exit.
 
 Print Assumptions block3_exit_kkt_gen.
 Print Assumptions block3_exit_kkt.
+
+(* The statement about [block3], the solver with the exit test found in the source tree. The first step fails at
+   once (instead of leaving the type checker to compare two runs of the solver) when the tree still has the exit
+   test `nH2 == 0`. *)
+From PS Require Import Generated_nnls.
+Lemma block3_exit_kkt_tree (A : Arith) (OF : OField A) (M : list (list (T A))) (b : list (T A)) :
+  wf_mat (length b) M ->
+  r_exit (block3 M b) = NormalExit ->
+  kkt_tol (block3_tol (length b)) M b (r_x (block3 M b)).
+Proof.
+  unfold block3.
+  assert (E : block3_exit_requires_full_step = true) by reflexivity.
+  rewrite E. apply (block3_exit_kkt OF).
+Qed.
